@@ -1951,3 +1951,285 @@ func (c *Ctx) rulePageCursor() {
 		c.ob("R-PAGECURSOR", "GetKeysPaged:cursor-comparison", f.Pos(), false, "no Compare call found (anchor changed)")
 	}
 }
+
+// R-PROOFCHILD: the proof loader drops a child slot only when it is the bare placeholder of a hashed child.
+func (c *Ctx) ruleProofChild() {
+	f := c.fn("pkg/trie/inmemory/proof", "loadProof")
+	if f == nil {
+		return
+	}
+	c.doc("R-PROOFCHILD", "loadProof: a child whose Merkle value is not in the proof is removed from its branch only on the path where it has neither a storage value (StorageValue == nil) nor children (HasChild() false), i.e. it is the placeholder of a hashed child; an inlined child — a leaf with a possibly empty value, or a value-less inlined branch — was decoded with its parent and must stay")
+	n := 0
+	eachInstr(f, func(b *ssa.BasicBlock, _ int, in ssa.Instruction) {
+		st, ok := in.(*ssa.Store)
+		if !ok || !isNilConst(st.Val) {
+			return
+		}
+		ia, ok := st.Addr.(*ssa.IndexAddr)
+		if !ok {
+			return
+		}
+		if _, isChildren := isFieldLoadNamed(ia.X, "Children"); !isChildren {
+			return
+		}
+		n++
+		noValue, noChildren := false, false
+		for _, fc := range factsAt(b) {
+			if e, neq, isN := nilCmp(fc.cond); isN {
+				if _, fv, ok := fieldLoad(e); ok && fv != nil && fv.Name() == "StorageValue" && fc.truth != neq {
+					noValue = true
+				}
+			}
+			if call, ok := fc.cond.(*ssa.Call); ok && call.Call.StaticCallee() != nil && call.Call.StaticCallee().Name() == "HasChild" && !fc.truth {
+				noChildren = true
+			}
+		}
+		c.ob("R-PROOFCHILD", fmt.Sprintf("loadProof:drop-child#%d", n), st.Pos(), noValue && noChildren,
+			fmt.Sprintf("a child is removed from the proof trie on a path where `no value` = %v and `no children` = %v are established: an inlined child (e.g. a value-less inlined branch) is mistaken for a hashed child missing from the proof and every key below it fails to verify", noValue, noChildren))
+	})
+	if n == 0 {
+		c.ob("R-PROOFCHILD", "loadProof:drop-child", f.Pos(), false, "no removal of a child slot found (anchor changed)")
+	}
+}
+
+// R-OVERLAY/childdel: inside a transaction a deleted child trie is not read through to the base state.
+func (c *Ctx) ruleChildDeletedMarker() {
+	sp := c.ssaPkg(rtStorageDir)
+	if sp == nil {
+		return
+	}
+	c.doc("R-OVERLAY/childdel", "lib/runtime/storage: every TrieState method that, with a transaction possibly open, reads a child trie of the base state (state.GetChild / state.GetFromChild not on the no-transaction edge) consults the transaction's child-deleted marker (deletes[keyToChild]) first: after DeleteChild inside a transaction the child's old content must not be visible")
+	n := 0
+	for _, f := range allFuncs(c, sp) {
+		if f.Parent() != nil || f.Signature.Recv() == nil || !strings.HasSuffix(f.Signature.Recv().Type().String(), "storage.TrieState") {
+			continue
+		}
+		hasTx := false
+		var reads []*ssa.Call
+		marker := false
+		eachInstr(f, func(b *ssa.BasicBlock, _ int, in ssa.Instruction) {
+			switch x := in.(type) {
+			case *ssa.Call:
+				if cal := x.Call.StaticCallee(); cal != nil && cal.Name() == "getCurrentTransaction" {
+					hasTx = true
+				}
+				if x.Call.IsInvoke() && (x.Call.Method.Name() == "GetChild" || x.Call.Method.Name() == "GetFromChild") && !noTxFact(b) {
+					reads = append(reads, x)
+				}
+			case *ssa.Lookup:
+				if _, fv, ok := fieldLoad(x.X); ok && fv != nil && fv.Name() == "deletes" {
+					marker = true
+				}
+			}
+		})
+		if !hasTx || len(reads) == 0 {
+			continue
+		}
+		readOnly := false
+		eachInstr(f, func(_ *ssa.BasicBlock, _ int, in ssa.Instruction) {
+			if cl, ok := in.(*ssa.Call); ok && calleeName(&cl.Call) == "(*sync.RWMutex).RLock" {
+				readOnly = true
+			}
+		})
+		if !readOnly {
+			// mutators (prefix clears, limited child deletion) also read the old child for their key lists and counters;
+			// not confirmed by a failing input, so reported as a cross-reference only
+			c.xref("R-OVERLAY/childdel", relName(f.String())+":consults-child-deleted-marker", reads[0].Pos(), marker,
+				shortFn(f)+" computes its key list / counters from the base state's child trie without looking at the transaction's deleted-children marker")
+			continue
+		}
+		n++
+		c.ob("R-OVERLAY/childdel", relName(f.String())+":consults-child-deleted-marker", reads[0].Pos(), marker,
+			shortFn(f)+" falls through to the base state's child trie while a transaction may be open without looking at the transaction's deleted-children marker: after DeleteChild in the transaction the child's old content is still returned")
+	}
+	if n == 0 {
+		c.ob("R-OVERLAY/childdel", "readers", token.NoPos, false, "no transactional child reader found (anchor changed)")
+	}
+}
+
+// R-OVERLAY/childkeys: the child key listing of a transaction is base entries + pending upserts - pending deletes.
+func (c *Ctx) ruleChildKeysMerge() {
+	f := c.fn(rtStorageDir, "(*TrieState).GetKeysWithPrefixFromChild")
+	if f == nil {
+		return
+	}
+	c.doc("R-OVERLAY/childkeys", "TrieState.GetKeysWithPrefixFromChild with a transaction open: once the base state's child entries were fetched (Entries()/GetKeysWithPrefix()), the transaction's pending upserts of that child are still applied (a read of childChanges.upserts is reachable after the fetch) and its pending deletes are consulted (childChanges.deletes is read): the listing must equal what the same call returns after commit")
+	var fetch []ssa.Instruction
+	var upReads, delReads []ssa.Instruction
+	eachInstr(f, func(b *ssa.BasicBlock, _ int, in ssa.Instruction) {
+		switch x := in.(type) {
+		case *ssa.Call:
+			if x.Call.IsInvoke() && (x.Call.Method.Name() == "Entries" || x.Call.Method.Name() == "GetKeysWithPrefix") && !noTxFact(b) {
+				fetch = append(fetch, in)
+			}
+		case *ssa.FieldAddr:
+			if fieldVar(x) == nil || !strings.HasSuffix(namedType(x.X.Type()), "storage.storageDiff") {
+				return
+			}
+			// only the per-child change set (loaded from childChangeSet), not the transaction's own maps
+			isChild := false
+			for v := range backwardSlice(x.X, nil) {
+				if lk, ok := v.(*ssa.Lookup); ok {
+					if _, fv, ok := fieldLoad(lk.X); ok && fv != nil && fv.Name() == "childChangeSet" {
+						isChild = true
+					}
+				}
+			}
+			if !isChild {
+				return
+			}
+			switch fieldVar(x).Name() {
+			case "upserts":
+				upReads = append(upReads, in)
+			case "deletes":
+				delReads = append(delReads, in)
+			}
+		}
+	})
+	if len(fetch) == 0 {
+		c.ob("R-OVERLAY/childkeys", "GetKeysWithPrefixFromChild:base-fetch", f.Pos(), false, "no fetch of the base child's entries on the transaction path (anchor changed)")
+		return
+	}
+	upAfter := false
+	for _, u := range upReads {
+		for _, ft := range fetch {
+			if instrReaches(ft, u) {
+				upAfter = true
+			}
+		}
+	}
+	c.ob("R-OVERLAY/childkeys", "GetKeysWithPrefixFromChild:upserts-applied-over-base", fetch[0].Pos(), upAfter,
+		"the pending upserts are read only BEFORE the base child's entries replace them: a key set in the transaction is missing from the listing when the child already exists in the state")
+	c.ob("R-OVERLAY/childkeys", "GetKeysWithPrefixFromChild:deletes-consulted", fetch[0].Pos(), len(delReads) > 0,
+		"the child's pending deletes are never read: a key cleared in the transaction is still listed")
+}
+
+// R-OVERLAY/childrecreate: writing into a child trie deleted earlier in the same transaction must not revive its old content.
+func (c *Ctx) ruleChildRecreate() {
+	f := c.fn(rtStorageDir, "(*storageDiff).upsertChild")
+	if f == nil {
+		return
+	}
+	c.doc("R-OVERLAY/childrecreate", "storageDiff.upsertChild: the transaction's child-deleted marker is not simply erased when a key is written into that child afterwards (the old content of the child would come back on commit): no delete(cs.deletes, keyToChild) without a replacement that still removes the old entries")
+	erased := false
+	eachInstr(f, func(_ *ssa.BasicBlock, _ int, in ssa.Instruction) {
+		call, ok := in.(*ssa.Call)
+		if !ok {
+			return
+		}
+		if b, ok := call.Call.Value.(*ssa.Builtin); ok && b.Name() == "delete" {
+			if _, fv, ok := fieldLoad(call.Call.Args[0]); ok && fv != nil && fv.Name() == "deletes" {
+				erased = true
+			}
+		}
+	})
+	c.ob("R-OVERLAY/childrecreate", "upsertChild:child-deleted-marker-kept", f.Pos(), !erased,
+		"upsertChild undoes the deletion of the child trie: Start; DeleteChild(c); SetChildStorage(c,y,2); Commit leaves the child's OLD keys in place next to y, whereas the same operations applied directly leave only y")
+}
+
+// R-PROOFVALUE: a generated proof carries the value of the proven key when the node only holds its hash (V1).
+func (c *Ctx) ruleProofValue() {
+	const dir = "pkg/trie/inmemory/proof"
+	sp := c.ssaPkg(dir)
+	if sp == nil {
+		return
+	}
+	c.doc("R-PROOFVALUE", "proof generation: on the path where a walker has found the node of the requested key, the returned proof-node list depends on that node's MustBeHashed flag and StorageValue (directly or through a helper of the package that appends the value): under state version 1 the node encoding holds only the hash of a value longer than 32 bytes and the verifier looks the value up by that hash, so the value must be a proof item of its own")
+	reads := func(g *ssa.Function) (flag, val, app bool) {
+		if g == nil {
+			return
+		}
+		eachInstr(g, func(_ *ssa.BasicBlock, _ int, in ssa.Instruction) {
+			if fa, ok := in.(*ssa.FieldAddr); ok && fieldVar(fa) != nil {
+				switch fieldVar(fa).Name() {
+				case "MustBeHashed":
+					flag = true
+				case "StorageValue":
+					val = true
+				}
+			}
+			if cl, ok := in.(*ssa.Call); ok {
+				if b, ok := cl.Call.Value.(*ssa.Builtin); ok && b.Name() == "append" {
+					app = true
+				}
+			}
+		})
+		return
+	}
+	n := 0
+	perFn := map[*ssa.Function]int{}
+	for _, f := range allFuncs(c, sp) {
+		if f.Parent() != nil {
+			continue
+		}
+		// walkers: return ([][]byte, error) and take a *node.Node
+		sig := f.Signature
+		if sig.Results().Len() != 2 || sig.Results().At(0).Type().String() != "[][]byte" {
+			continue
+		}
+		hasNode := false
+		for _, p := range f.Params {
+			if isNodePtr(p.Type()) {
+				hasNode = true
+			}
+		}
+		if !hasNode {
+			continue
+		}
+		// found-returns: success returns whose list is not the result of a recursive descent
+		for _, r := range returnsOf(f) {
+			if !isNilConst(resultOf(r, 1)) || isNilConst(resultOf(r, 0)) {
+				continue
+			}
+			rec := false
+			var helper *ssa.Function
+			for v := range backwardSlice(resultOf(r, 0), nil) {
+				if cl, ok := v.(*ssa.Call); ok {
+					if g := cl.Call.StaticCallee(); g != nil && g.Pkg == sp {
+						gs := g.Signature
+						if gs.Results().Len() == 2 && gs.Results().At(0).Type().String() == "[][]byte" {
+							rec = true // descends further (walk / a delegating walker)
+						} else {
+							helper = g
+						}
+					}
+				}
+			}
+			if rec {
+				continue
+			}
+			n++
+			perFn[f]++
+			flag, val, app := reads(helper)
+			if helper == nil {
+				// inline form: the found-return block itself (or a block dominating it after the key test) appends the value
+				flag, val, app = false, false, false
+				for _, fc := range factsAt(r.Block()) {
+					if _, fv, ok := fieldLoad(fc.cond); ok && fv != nil && fv.Name() == "MustBeHashed" && fc.truth {
+						flag = true
+					}
+				}
+				for v := range backwardSlice(resultOf(r, 0), nil) {
+					if _, fv, ok := fieldLoad(v); ok && fv != nil && fv.Name() == "StorageValue" {
+						val = true
+					}
+					if cl, ok := v.(*ssa.Call); ok {
+						if b, ok := cl.Call.Value.(*ssa.Builtin); ok && b.Name() == "append" {
+							app = true
+						}
+					}
+				}
+				// an unconditional append of the value guarded inside a φ also counts when the flag is read in the function
+				if !flag {
+					fl, _, _ := reads(f)
+					flag = fl && val
+				}
+			}
+			c.ob("R-PROOFVALUE", fmt.Sprintf("%s:found-return#%d", relName(f.String()), perFn[f]), r.Pos(), flag && val && app,
+				shortFn(f)+" returns the proof nodes for a found key without adding the key's value when the node stores only its hash (MustBeHashed): for state version 1 a proof of a present key with a value longer than 32 bytes cannot be verified (key not found)")
+		}
+	}
+	if n == 0 {
+		c.ob("R-PROOFVALUE", "walkers", token.NoPos, false, "no found-return in a proof walker (anchor changed)")
+	}
+}
